@@ -166,8 +166,8 @@ Section Methods.
         do m1 <- and_inc sb_mask_inc msky ns ne inc;
         finish evs m1
     | MPsi c =>
-        (* __init__ refuses any other number of sources *)
-        if negb (Nat.eqb ns 1) then Err ValueError
+        (* __init__ refuses any other number of sources: `if n_sources != 1: raise ValueError` *)
+        if pf_ns_bad (Z.of_nat ns) then Err ValueError
         else finish evs [map c evs]                 (* np.atleast_2d(mask) *)
     | MPair c =>
         let t := match inc with None => full_tbl ns ne | Some t => t end in
@@ -190,6 +190,19 @@ Section Methods.
         Ok {| s_events := s_events r2; s_tbl := s_tbl r2; s_orig := org |}
     end.
 
+  (* select_events(..., ret_original_evt_idxs=False): the atomic methods run the same statements
+     and return without the original indices; IntersectionEventSelectionMethod has a SEPARATE
+     branch for it (calls both methods without the flag, no np.take) — the branch
+     TrialDataManager.initialize_trial uses *)
+  Fixpoint run_nr (m : meth) (srcs : list S) (evs : list E) (inc : option tbl)
+    : res (list E * tbl) :=
+    match m with
+    | MAnd a b =>
+        do r1 <- run_nr a srcs evs inc;
+        run_nr b srcs (fst r1) (Some (snd r1))
+    | _ => do r <- run m srcs evs inc; Ok (s_events r, s_tbl r)
+    end.
+
   (* ------------------------------------------------- TrialDataManager *)
   (* np.argsort of the index field of the given events: external code *)
   Variable argsort : list E -> list Z.
@@ -208,7 +221,7 @@ Section Methods.
              (index_field : bool) : res (list E * tbl) :=
     do st <- match m with
              | None => Ok (evs, None)
-             | Some m => do r <- run m srcs evs None; Ok (s_events r, Some (s_tbl r))
+             | Some m => do r <- run_nr m srcs evs None; Ok (fst r, Some (snd r))
              end;
     let '(ev1, t1) := st in
     do st2 <- (if index_field then
@@ -248,6 +261,7 @@ Arguments finish {E} _ _.
 Arguments fill_batches {S} _ _ _ _.
 Arguments batch_step {S} _ _ _ _ _ _.
 Arguments run {S E} _ _ _ _.
+Arguments run_nr {S E} _ _ _ _.
 Arguments tdm_init {S E} _ _ _ _ _.
 
 (* criteria given by a literal array (used by the correspondence: the
